@@ -88,7 +88,7 @@ class _HyperVolume:
             # fmder: Assume relevantPoints are numpy array
             # for j in xrange(len(relevantPoints)):
             #     relevantPoints[j] = [relevantPoints[j][i] - referencePoint[i] for i in xrange(dimensions)]
-            relevantPoints -= referencePoint
+            relevantPoints = numpy.asarray(relevantPoints, dtype=float) - referencePoint
             # fmder
             #######
 
